@@ -43,7 +43,7 @@ for k, prog in enumerate(inp["programs"]):
             g = getattr(mod, fn)
             pkg = g.compile_function() if hasattr(g, "compile_function") else g.compile()
             h = pkg.modules[0]
-            drops, ok, dangling = [], True, []
+            drops, ok, dangling, unlinked = [], True, [], []
             for node in h:
                 op = h[node].op
                 if isinstance(op, ops.ExtOp) and op._op_def.name == "drop":
@@ -61,9 +61,12 @@ for k, prog in enumerate(inp["programs"]):
                 for i in range(h.num_out_ports(node)):
                     port = node.out(i)
                     kind = h.port_kind(port)
-                    if isinstance(kind, ht.ValueKind) and C.requires_drop(kind.ty) and next(iter(h.linked_ports(port)), None) is None:
-                        dangling.append(str(kind.ty))
-            rec.update(drops=sorted(drops), drop_srcs_ok=ok, dangling=dangling, n_nodes=sum(1 for _ in h))
+                    if isinstance(kind, ht.ValueKind) and next(iter(h.linked_ports(port)), None) is None:
+                        # every unlinked value port, judged by the caller independently of the real requires_drop
+                        unlinked.append({"op": type(op).__name__, "port": i, "ty": str(kind.ty), "ser": ser(kind.ty)})
+                        if C.requires_drop(kind.ty):
+                            dangling.append(str(kind.ty))
+            rec.update(drops=sorted(drops), drop_srcs_ok=ok, dangling=dangling, unlinked=unlinked, n_nodes=sum(1 for _ in h))
         except Exception as e:  # noqa: BLE001
             rec["err"] = f"{type(e).__name__}: {str(e)[:400]}"
         out.append(rec)
